@@ -203,10 +203,16 @@ def run_fonts(report, rng):
         plans.append((dict(color_format="glyf_colr_1", upem=upem, ascender=round(upem * 0.8), descender=-round(upem * 0.2), clipbox_quantization=q), None))
     plans.append((dict(color_format="glyf_colr_1", upem=1024, ascender=820, descender=-204, clipbox_quantization=37), "flag"))
     plans.append((dict(color_format="cff_colr_1", output_file="Font.otf", upem=2048, ascender=1640, descender=-408, clipbox_quantization=50, clip_to_viewbox=False), "file"))
-    for over, via in plans:
-        case = dict(kind="e2e", config={k: str(v) for k, v in over.items()}, built_by=via or "in process", sources=[s_[1] for s_ in srcs])
+    # "do not clip" given as a flag (a falsy value), and next to another configuration that does clip the same files
+    plans.append((dict(color_format="glyf_colr_1", upem=1000, ascender=800, descender=-200, clip_to_viewbox=False), "flag"))
+    plans.append((dict(color_format="glyf_colr_1", upem=1000, ascender=800, descender=-200, clip_to_viewbox=False), "file",
+                  dict(companion=(dict(color_format="glyf_colr_1", upem=1000, ascender=800, descender=-200, clip_to_viewbox=True), None))))
+    for plan in plans:
+        over, via = plan[:2]
+        extra = plan[2] if len(plan) > 2 else {}
+        case = dict(kind="e2e", config={k: str(v) for k, v in over.items()}, built_by=(via or "in process") + "".join(", " + k for k in extra), sources=[s_[1] for s_ in srcs])
         try:
-            font, cfg, picos, _ = build.build_cli(over, srcs, via) if via else build.build_inprocess(over, srcs)
+            font, cfg, picos, _ = build.build_cli(over, srcs, via, **extra) if via else build.build_inprocess(over, srcs)
         except Exception as ex:
             case["error"] = f"{type(ex).__name__}: {ex}"[:1500]
             report_failure(report, "font_build", case)
@@ -228,7 +234,13 @@ def run_fonts(report, rng):
             if paints:
                 probs += e2e.clip_problems(font, g, act, 2.5)
             report.count(("font", str(over), via, g), True)
-        report.hist("fonts.built_by", "command line, options by " + via if via else "in process")
+        if not probs:
+            # the box must contain what the SOURCE paints (as this configuration clips it), not only what was compiled
+            keep = [k for k, pico in enumerate(picos) if "<path" in pico]
+            src_probs = []
+            e2e.check_colr_glyphs(font, cfg, [srcs[k] for k in keep], [picos[k] for k in keep], src_probs)
+            probs += [str(x)[:600] for x in src_probs]
+        report.hist("fonts.built_by", ("command line, options by " + via + "".join(", " + k for k in extra)) if via else "in process")
         if probs:
             case["problems"] = probs[:5]
             report_failure(report, "font", case)
